@@ -623,7 +623,8 @@ def obligations(tier, seed):
     for T in (3,) if tier == "quick" else (3, 4):
         for scheme in ("serial", "ties"):
             add("C20.suffstat.skyride.batched[T=%d,%s]" % (T, scheme), "scn_suffstat_batched", (T, scheme), "sufficient statistics reproduce log_prob (batched, per-sample orderings)")
-            add("C20.suffstat.skygrid.batched[T=%d,%s,grid=[0.4, 2.5]]" % (T, scheme), "scn_suffstat_batched", (T, scheme, [0.4, 2.5]), "sufficient statistics reproduce log_prob (batched, per-sample orderings) or the call raises")
+            if T == 3:   # two samples x two grid points: the event orderings of T=4 exceed the budget
+                add("C20.suffstat.skygrid.batched[T=%d,%s,grid=[0.4, 2.5]]" % (T, scheme), "scn_suffstat_batched", (T, scheme, [0.4, 2.5]), "sufficient statistics reproduce log_prob (batched, per-sample orderings) or the call raises")
     for N in (2, 3):
         add("C20.gmrf.timeaware.sequence[N=%d]" % N, "scn_gmrf_sequence", (N,), "time-aware GMRF follows a re-ranking of the coalescent times")
     obs.append(ob_quadrature(seed))
